@@ -258,10 +258,11 @@ def c15e(ctx):
     for qn, sink in USERS[1:]:
         fn = ctx.fn(qn)
         g = fn.cfg
-        adds = g.find(lambda x: is_call(x, sink) and len(x.args) == 2)
+        adds = g.find(lambda x: is_call(x, sink) and len(x.args) + len(x.keywords) == 2)
         ok = len(adds) >= 1 and all(g.guarded(n, lambda at: at.op == '==' and 'layer_img' in (unparse(at.left), unparse(at.right)), False)
                                     for n, x in adds)
-        ok = ok and all(same(x.args[0], 'layer_img') and same(x.args[1], 'layer.coverage') for n, x in adds)
+        ok = ok and all(keyword(x, 'img', 0) is not None and same(keyword(x, 'img', 0), 'layer_img') and
+                        keyword(x, 'coverage', 1) is not None and same(keyword(x, 'coverage', 1), 'layer.coverage') for n, x in adds)
         ctx.check(ok, '%s:adds-every-image' % fn.short, 'every non-empty layer image is added to the merger with its layer coverage', fn,
                   fail='%s does not add each rendered layer image (with layer.coverage) to the merger' % fn.short)
 
